@@ -1,0 +1,22 @@
+//go:build verif
+
+package virtual
+
+// VerifLockIsFree reports whether the mutex of an in-memory directory
+// is currently free, by briefly acquiring it with TryLock(). It is
+// used by the verification harness to detect, deterministically, a
+// call that returned while still holding the directory lock (instead
+// of detecting it through the hang of the next call). The second
+// return value is false if the directory is not an
+// inMemoryPrepopulatedDirectory.
+func VerifLockIsFree(d PrepopulatedDirectory) (isFree, ok bool) {
+	i, ok := d.(*inMemoryPrepopulatedDirectory)
+	if !ok {
+		return false, false
+	}
+	if !i.lock.TryLock() {
+		return false, true
+	}
+	i.lock.Unlock()
+	return true, true
+}
